@@ -102,6 +102,19 @@ PROPS = {
         "level_note": "PARTIAL: compact-map hoisting and inlined children are checked by the Go-side equation only, not by a theorem." + GEN_NOTE,
         "technique": "Coq proof (length of the encoder's output by structural induction over generated constants) + byte-for-byte lock-step with the implementation",
     },
+    "C02": {
+        "props": ["props/C02_elems.v"],
+        "coq_module": "MapTrace", "coq_check": "chk_mapelems",
+        "runs": {"quick": [{"cmd": ["mapelems", "-prop", "C02", "-n", "300", "-steps", "300"], "engine": "mapelems", "coq_sample": 4},
+                           {"cmd": ["world", "-prop", "C02", "-n", "120", "-steps", "300"]}],
+                 "thorough": [{"cmd": ["mapelems", "-prop", "C02", "-n", "6000", "-steps", "300"], "engine": "mapelems", "coq_sample": 20, "timeout": 2400},
+                              {"cmd": ["world", "-prop", "C02", "-n", "3000", "-steps", "400"], "timeout": 2400}]},
+        "search": [{"cmd": ["mapelems", "-prop", "C02", "-n", "1500", "-steps", "300"]}, {"cmd": ["world", "-prop", "C02", "-n", "600", "-steps", "300"]}],
+        "trusted_base": ["model: coq/theories/MapElems.v (element level of OrderedMap, see C12); the distribution of elements over map data slabs / index slabs, digest routing through index slabs and root split/promotion are NOT in the Coq model"],
+        "level_text": "Proved at element level for every digest assignment and every history from the empty map: each returned value, previous value, removed pair, count, has/get answer and error (key-not-found for absent keys, collision limit) equals the dictionary's, the entry list is the dictionary in canonical order, and the structure invariant holds (C02_elems_refines_dictionary, C02_elems_step). Tie: shape-for-shape lock-step of the element structure across ALL data slabs of multi-slab maps (the dump walks index slabs and sibling links), shadow-dictionary oracle, VerifyMap after every mutation; plus nested random worlds with maps as containers and values (deep content comparison, reopen after commit).",
+        "level_note": "PARTIAL: C02_partial in the sense of DESIGN section 4 — the theorem is about the element level (one logical hkeyElements); that splitting/merging map slabs and routing by first digest preserve it is checked on the implementation (VerifyMap, shadow dictionary, lock-step dump concatenated over slabs), not proved." + GEN_NOTE,
+        "technique": "Coq proof (refinement of the element-level model to an ordered dictionary, all digest functions) + lock-step correspondence and shadow-dictionary oracle on multi-slab maps",
+    },
     "C12": {
         "props": ["props/C12.v", "props/C02_elems.v"],
         "coq_module": "MapTrace", "coq_check": "chk_mapelems",
@@ -138,4 +151,4 @@ PROPS = {
 }
 
 NOT_APPLICABLE = {p: "not yet built in this revision (work in progress; see DESIGN.md section 6 build order)" for p in
-                  ["C01","C02","C05","C09","C10","C11","C13","C17","C18"]}
+                  ["C01","C05","C09","C10","C11","C13","C17","C18"]}
